@@ -74,6 +74,7 @@ arr_real design_multirate_fir(int interp, int decim, int hlen, real_t astop) {
 }
 
 std::vector<arr_real> IResampler::polyphase(arr_real h, int m, real_t gain, bool flip_coeffs) {
+    DSPLIB_ASSERT(m > 0, "number of polyphase branches must be positive");
     const int nh = (h.size() % m == 0) ? (h.size()) : ((h.size() / m + 1) * m);
     h = zeropad(h, nh);
     h /= sum(h);
